@@ -1709,6 +1709,120 @@ fn run_case(case_seed: u64, r: &mut Report, verbose: bool) {
     c.run();
 }
 
+/// Router with the query cache switched on, statements arriving through both text entry points
+/// (`execute_parsed` and `execute_parsed_async`): every SELECT must still return exactly the rows
+/// of the harness's model that satisfy its WHERE clause, also when the same SELECT text was
+/// answered (and cached) before a write.
+fn cached_router_case(case_seed: u64, r: &mut Report) {
+    let mut rng = Rng::new(case_seed);
+    let store = TensorStore::new();
+    let rel = Arc::new(RelationalEngine::with_store_and_config(store.clone(), cfg()));
+    let mut router = QueryRouter::with_engines(rel, Arc::new(GraphEngine::with_store(store.clone())), Arc::new(VectorEngine::with_store(store)));
+    router.init_cache();
+    let rt = match tokio::runtime::Builder::new_current_thread().build() {
+        Ok(rt) => rt,
+        Err(_) => {
+            r.inconclusive("tokio runtime");
+            return;
+        }
+    };
+    let replay = json!({"part": "cached-router", "case_seed": case_seed});
+    let mut trace: Vec<String> = Vec::new();
+    let mut run = |q: &str, rng: &mut Rng, trace: &mut Vec<String>| -> std::result::Result<QueryResult, String> {
+        let via_async = rng.bool();
+        trace.push(format!("{}{}", if via_async { "[async] " } else { "" }, q));
+        if via_async {
+            rt.block_on(router.execute_parsed_async(q)).map_err(|e| format!("{:?}", e))
+        } else {
+            router.execute_parsed(q).map_err(|e| format!("{:?}", e))
+        }
+    };
+    if run("CREATE TABLE ct (k INT, v INT, s TEXT)", &mut rng, &mut trace).is_err() {
+        r.inconclusive("create table through the router failed");
+        return;
+    }
+    // model: id -> (k, v, s)
+    let mut model: BTreeMap<u64, (i64, i64, String)> = BTreeMap::new();
+    let names = ["bob", "Bob", "BOB", "amy", "Amy"];
+    // a small pool of SELECT texts so that the same text is asked again after writes
+    let selects: Vec<(String, Box<dyn Fn(&(i64, i64, String)) -> bool>)> = vec![
+        ("SELECT * FROM ct".to_string(), Box::new(|_| true)),
+        ("SELECT * FROM ct WHERE v >= 3".to_string(), Box::new(|t| t.1 >= 3)),
+        ("SELECT * FROM ct WHERE v < 3".to_string(), Box::new(|t| t.1 < 3)),
+        ("SELECT * FROM ct WHERE k = 1".to_string(), Box::new(|t| t.0 == 1)),
+        ("SELECT * FROM ct WHERE s = 'bob'".to_string(), Box::new(|t| t.2 == "bob")),
+        ("SELECT * FROM ct WHERE s = 'Bob'".to_string(), Box::new(|t| t.2 == "Bob")),
+        ("SELECT * FROM ct WHERE s = 'BOB'".to_string(), Box::new(|t| t.2 == "BOB")),
+        ("select * from ct where s = 'amy'".to_string(), Box::new(|t| t.2 == "amy")),
+        ("SELECT * FROM ct WHERE s = 'Amy'".to_string(), Box::new(|t| t.2 == "Amy")),
+    ];
+    let steps = 12 + rng.below(30);
+    for _ in 0..steps {
+        match rng.weighted(&[30, 15, 10, 45]) {
+            0 => {
+                let (k, v, sname) = (rng.below(4) as i64, rng.below(6) as i64, *rng.pick(&names));
+                match run(&format!("INSERT INTO ct (k, v, s) VALUES ({}, {}, '{}')", k, v, sname), &mut rng, &mut trace) {
+                    Ok(QueryResult::Ids(ids)) if ids.len() == 1 => {
+                        model.insert(ids[0], (k, v, sname.to_string()));
+                    }
+                    Ok(other) => {
+                        // learn the id from a scan instead
+                        let _ = other;
+                        r.inconclusive("insert result kind not understood");
+                        return;
+                    }
+                    Err(_) => {
+                        r.count("text_router_errors", 1);
+                        return;
+                    }
+                }
+            }
+            1 => {
+                let (k, v) = (rng.below(4) as i64, rng.below(6) as i64);
+                if run(&format!("UPDATE ct SET v = {} WHERE k = {}", v, k), &mut rng, &mut trace).is_ok() {
+                    for t in model.values_mut().filter(|t| t.0 == k) {
+                        t.1 = v;
+                    }
+                } else {
+                    r.count("text_router_errors", 1);
+                    return;
+                }
+            }
+            2 => {
+                let k = rng.below(4) as i64;
+                if run(&format!("DELETE FROM ct WHERE k = {}", k), &mut rng, &mut trace).is_ok() {
+                    model.retain(|_, t| t.0 != k);
+                } else {
+                    r.count("text_router_errors", 1);
+                    return;
+                }
+            }
+            _ => {
+                let (q, pred) = &selects[rng.below(selects.len())];
+                let exp: BTreeSet<u64> = model.iter().filter(|(_, t)| pred(t)).map(|(id, _)| *id).collect();
+                match run(q, &mut rng, &mut trace) {
+                    Ok(QueryResult::Rows(rows)) => {
+                        let got: BTreeSet<u64> = ids_of(&rows).into_iter().collect();
+                        r.count("cached_router_selects_checked", 1);
+                        if got != exp {
+                            let stale_kind = if trace.iter().rev().skip(1).any(|t| t.ends_with(q.as_str())) { "same-text-asked-before" } else { "first-time-text" };
+                            r.violation(
+                                format!("cached-router:select-differs-from-model:{}", stale_kind),
+                                format!("with the query cache on, `{}` returned ids {:?} but rows {:?} satisfy it; statements so far: {:?}", q, got, exp, trace),
+                                replay.clone(),
+                            );
+                            return;
+                        }
+                    }
+                    Ok(_) => {}
+                    Err(_) => r.count("text_router_errors", 1),
+                }
+            }
+        }
+    }
+    r.eval(hash_str(&trace.join(";")), trace.len() > 8);
+}
+
 fn main() {
     let args = Args::parse();
     let started = Instant::now();
@@ -1728,7 +1842,8 @@ fn main() {
         let v: J = serde_json::from_str(&std::fs::read_to_string(p).expect("replay file")).expect("json");
         let rp = if v.get("replay").is_some() { &v["replay"] } else { &v };
         let seed = rp["case_seed"].as_u64().expect("case_seed");
-        let res = std::panic::catch_unwind(std::panic::AssertUnwindSafe(|| run_case(seed, &mut total, verbose)));
+        let cached = rp["part"].as_str() == Some("cached-router");
+        let res = std::panic::catch_unwind(std::panic::AssertUnwindSafe(|| if cached { cached_router_case(seed, &mut total) } else { run_case(seed, &mut total, verbose) }));
         if let Err(e) = res {
             let msg = panic_msg(&e);
             total.violation(format!("panic:{}", first_line(&msg)), msg, json!({"part": "case", "case_seed": seed}));
@@ -1738,7 +1853,10 @@ fn main() {
         run_case(seed, &mut total, verbose);
     } else {
         let n = args.by_tier(4_000u64, 400_000u64);
-        let rep = par_cases(args.threads, args.seed, n, args.budget(55, 780), |_i, s, r| run_case(s, r, false));
+        let rep = par_cases(args.threads, args.seed, n, args.budget(45, 700), |_i, s, r| run_case(s, r, false));
+        total.merge(rep);
+        let n2 = args.by_tier(1_500u64, 60_000u64);
+        let rep = par_cases(args.threads, args.seed ^ 0xCAC4E, n2, args.budget(15, 180), |_i, s, r| cached_router_case(s, r));
         total.merge(rep);
     }
 
@@ -1758,6 +1876,7 @@ fn main() {
         } else {
             vec![
                 ("cases", 200),
+                ("cached_router_selects_checked", 2_000),
                 ("query_rounds", 5_000),
                 ("path:select:hash", 300),
                 ("path:select:btree", 300),
